@@ -21,8 +21,8 @@ claimed = {
              ref="6/C03", note=NOTE + "The group law itself (C08 L1-L3), the signers, RFC6979 and key recovery are outside this revision; the on-curve relation is decided over uninterpreted field products, so what is shown is that the checks are made, on top of the C08 field harnesses. "),
  "C14": dict(text="Bounded model checking (Int mode, HMAC-SHA512 / SHA-256 / RIPEMD-160 as injective ghost functions, public key as an uninterpreted function of the private key) of BIP32: CKDpriv for every key, chain code and index "
                   "(HMAC input layout hardened / normal, child = (IL + k) mod n zero-padded, chain code, depth, fingerprint, index), CKDpub (same HMAC input, tweak passed to the point addition, hardened indexes refused), "
-                  "extended-key serialisation layout / checksum / parse-back, WIF export/import round trip.",
-             ref="6/C14", note=NOTE + "Outside: make_wallet, BIP39, scrypt, address listing; Base58 is bypassed here (C15). BIP32's 'IL >= n or child == 0 is invalid' rule is assumed away (probability < 2^-127). "),
+                  "extended-key serialisation layout / checksum / parse-back, WIF export/import round trip; the key list of a type-4 wallet (make_wallet): i-th key = child B+i of the configured path with the matching label, out-of-range indexes refused.",
+             ref="6/C14", note=NOTE + "Outside: type-3 key chain, BIP39, scrypt, seed handling, address listing; Base58 is bypassed here (C15). BIP32's 'IL >= n or child == 0 is invalid' rule is assumed away (probability < 2^-127). "),
  "C08": dict(text="Bounded model checking (Int mode: mathematical integers with explicit wrap-around, quotient variables, products abstracted to shared bounded variables) of the 5x52 field arithmetic against the ring Z/p: "
                   "Mul and Sqr for all operands of magnitude <= 8, Normalize for all limbs < 2^60 (canonical output, value preserved mod p), SetAdd / MulInt / Negate within their magnitude contracts, SetB32/GetB32 round trip and value; point serialisation (GetPublicKey, XY.Bytes) of coordinates in the non-normalised form SetXYZ leaves: canonical X/Y bytes and the parity of the canonical Y; the contracts between the group layer and the field layer (Double / Add / AddXY / affine helpers: operand magnitudes of Mul, Sqr, Negate, normalisation before Equals / IsZero / IsOdd / GetB32, output magnitudes inductive).",
              ref="6/C08", note=NOTE + "Most of these obligations are discharged by the engine's canonical linear forms and interval arithmetic before a query is needed (reported per assertion in the evidence as folded); the group law, scalar code and tables (L1-L3) are not yet covered. "),
